@@ -65,8 +65,8 @@ type cfg struct {
 }
 
 func (c cfg) term() string {
-	return fmt.Sprintf("{| c_ext := %s; c_maxActive := %d; c_maxKeyLen := %d; c_maxValueLen := %d; c_maxTxEntries := %d; c_stale := %s; c_embedded := %s |}",
-		vk.Bool(c.ext), c.maxActive, c.maxKeyLen, c.maxValueLen, c.maxTxEntries, vk.Bool(staleHolder), vk.Bool(c.embedded))
+	return fmt.Sprintf("{| c_ext := %s; c_maxActive := %d; c_maxKeyLen := %d; c_maxValueLen := %d; c_maxTxEntries := %d; c_embedded := %s |}",
+		vk.Bool(c.ext), c.maxActive, c.maxKeyLen, c.maxValueLen, c.maxTxEntries, vk.Bool(c.embedded))
 }
 
 // limits of the primary and of an unrestricted replica (tx holders are MaxTxEntries*MaxKeyLen bytes
@@ -318,20 +318,13 @@ type storeCase struct {
 	idx                int
 	staleHit           bool
 	lost               bool
-	// foreign: the replica has at some point held a record that is not the primary's (an accepted
-	// alteration). After a discard and a reopening the tx log reload may take that record back while
-	// the AHT keeps the leaf of whichever record was appended last for that id (ResetSize does not
-	// shrink the AHT files): the AHT and the chain then disagree. Not modelled: the case ends at the
-	// first reopening after such an acceptance.
-	foreign bool
 	// reAppended: a delivery was accepted after a discard in this session, i.e. records were appended
 	// behind discarded ones. A reopening then takes the discarded records back and leaves the newer
 	// ones behind the logical end of the tx log; what a later append overwrites of them depends on
 	// byte sizes (an identical re-delivery overwrites its twin exactly and the records behind it come
 	// back at the next reopening). The model drops such left-overs at the next append: the case
 	// ends at the reopening.
-	reAppended     bool
-	batchSinceOpen bool
+	reAppended bool
 }
 
 func (sc *storeCase) find(text string) {
@@ -447,7 +440,6 @@ func (sc *storeCase) deliver(b []byte, skip bool, genuineID uint64, what string)
 		}
 		if !known || hdr.Alh() != palh {
 			sc.diverged = true
-			sc.foreign = true
 			if genuineID > 0 {
 				if !sc.divergedBefore(id) {
 					if hdr.BlTxID == 0 && hdr.BlRoot != [sha256.Size]byte{} {
@@ -500,11 +492,6 @@ func (sc *storeCase) restart() error {
 	after := obsOf(sc.replica)
 	sc.add(fmt.Sprintf("SRestart %s", after.term(sc.in)), map[string]any{"op": "restart", "after": after.js()})
 	sc.stats["restart"]++
-	if sc.c.embedded && after.cid == 0 && sc.stats["deliver/next/accepted"]+sc.stats["deliver/altered/accepted"]+sc.stats["deliver/forge/accepted"]+sc.stats["batch"] > 0 {
-		// the reload loop mis-read the embedded-values prefix; what it left in the tx holder (it
-		// matters for a later tx 1, stale-BlRoot finding) is not modelled: the case ends here
-		sc.lost = true
-	}
 	if after.pid < before.pid && (sc.c.embedded || !sc.discardedSinceOpen) {
 		// (after a discard in the same session, reopening resurrects the discarded records and drops
 		// what was precommitted behind them: documented at DiscardPrecommittedTxsSince)
@@ -518,21 +505,15 @@ func (sc *storeCase) restart() error {
 		sc.find(fmt.Sprintf("Close+Open changed the committed state of the replica %v -> %v", before.js(), after.js()))
 	}
 	sc.discardedSinceOpen = false
-	sc.batchSinceOpen = false
 	sc.restarts++
 	sc.recheckDiverged() // reopening takes discarded records back
-	if sc.foreign || sc.reAppended {
+	if sc.reAppended {
 		sc.lost = true
 	}
 	return nil
 }
 
 func (sc *storeCase) discard(t uint64) {
-	if staleHolder && sc.batchSinceOpen && t == 1 {
-		// concurrent calls used several pooled tx holders; which stale BlRoot a re-precommitted
-		// tx 1 would pick up afterwards depends on the goroutine schedule: keep tx 1
-		t = 2
-	}
 	before := obsOf(sc.replica)
 	var n int
 	cls, err := call(func() error {
@@ -616,7 +597,6 @@ func (sc *storeCase) batch(ids []uint64, skip bool) {
 	sc.add(fmt.Sprintf("SBatch %s %s %d %s", vk.Bool(skip), vk.List(terms), n, after.term(sc.in)),
 		map[string]any{"op": "batch", "ids": ids, "accepted": n, "after": after.js()})
 	sc.stats["batch"]++
-	sc.batchSinceOpen = true
 }
 
 func (sc *storeCase) emit(kind string, nontrivial bool) {
@@ -697,7 +677,9 @@ func useTmpfs() {
 	}
 }
 
-// staleHolder: result of probeStale on this build of /repo
+// staleHolder: result of probeStale on this build of /repo. Since commit 7c27871 performPrecommit
+// clears the BlRoot of the pooled tx holder; the model has no such holder any more, the probe (the
+// directed schedule that used to fail) keeps running and a recurrence is reported.
 var staleHolder bool
 
 func runProbe(r *vk.Run) error {
